@@ -112,12 +112,14 @@ class Gen:
   def feat(s, f): s.features.add(f)
   def pick(s, xs): return s.rng.choice(xs)
 
-  def mk_struct(s, depth=0):
+  def mk_struct(s, depth=0, force=None):
     rng = s.rng
     name = f'St{s.uid}_{len(s.structs)}'
     fields = []
     for i in range(rng.randrange(1, 5)):
       r = rng.random()
+      if force and i == 0 and s.structs:
+        r = {'struct': 0.7, 'list-of-bits': 0.85, 'list-of-struct': 0.95}[force]
       if r < 0.55 or depth >= 1 and r < 0.8: ft = ('bits', rng.choice([1, 2, 3, 4, 4, 8, 8, 16, 5, 32]))
       elif r < 0.75 and depth < 1 and s.structs:
         ft = ('struct', rng.choice(s.structs))
@@ -397,6 +399,13 @@ class Gen:
       s.feat('struct-copy-then-field')
       lv = leaves(target, ('struct', T)); t, w = rng.choice(lv)
       return [f'{target} {op} {rng.choice(same)}', f'{t} {op} {s.expr(w)}']
+    if r < 0.12 and op == '@=' and not s.ys_safe and all(ft[0] == 'bits' for _, ft in T.fields):
+      # constant bitstruct in an update block: closure constant or all-constant instantiation
+      # (the Yosys backend raises VerilogTranslationError for the closure form: counted as rejected there)
+      if rng.random() < 0.5:
+        nm = f'KS{len(s.bconsts)}_{s.nsig}'; s.head.append(f'{nm} = {s.const_inst(("struct", T))}'); s.feat('struct-closure-const')
+        return [f'{target} {op} {nm}']
+      s.feat('struct-inst-const'); return [f'{target} {op} {s.const_inst(("struct", T))}']
     if r < 0.75 and all(ft[0] == 'bits' for _, ft in T.fields):
       s.feat('struct-inst')
       return [f'{target} {op} {T.name}( ' + ', '.join(s.expr(ft[1]) for _, ft in T.fields) + ' )']
@@ -484,6 +493,8 @@ class Gen:
       if r < 0.22: s.add_list_unit(); continue
       if r < 0.30: s.add_array_unit(); continue
       if r < 0.36 and top: s.add_varslice_unit(); continue
+      if r < 0.42: s.add_lambda_bank(); continue
+      if r < 0.47: s.add_const_struct_connect(); continue
       if r < 0.40 and s.structs: s.add_struct_unit(); continue
       if r < 0.50: s.add_connect_unit(); continue
       # plain Bits target(s)
@@ -907,7 +918,12 @@ class Gen:
     for k, e in enumerate(offs):
       c = rng.randrange(0, cmax + 1)
       if c and rng.random() < 0.6: e = f'{e} + {c}'; s.feat('varslice:offset-arith')
-      body.append(f's.{on}[{k}] @= {x}[ {e} : {e} + {N} ]')
+      sel = f'{x}[ {e} : {e} + {N} ]'
+      if N > 1 and rng.random() < 0.3:
+        q = rng.randrange(1, N); s.feat('varslice:trunc'); sel = f'zext( trunc( {sel}, {q} ), {N} )'
+      elif N > 1 and s.allow_sext_expr and rng.random() < 0.5:
+        q = rng.randrange(1, N); s.feat('varslice:sext'); sel = f'trunc( sext( {sel}, {N + q} ), {N} )'
+      body.append(f's.{on}[{k}] @= {sel}')
     if loop_list:
       t, n = loop_list
       # the last output collects the selections of all list elements, indexed by the loop variable
@@ -967,6 +983,74 @@ class Gen:
     for f, d, k, w in fams:
       if k == 'out':
         for e in (s.fam_elems(f, d) if d else [f]): s.avail.append(Sig(e, w))
+
+
+  # ------------------------------------------------------------------ blocks created in a python loop, constant tables
+  def add_lambda_bank(s):
+    """several update blocks of ONE component made by a python for-loop (`//= lambda:`), each with its own value of the
+    loop variable, reading constant tables indexed by it: a module-level list of ints, a closure list of ints, a closure
+    list of Bits, a list of Bits stored on the component (s.tab[i]); the loop variable also as int and as signal-list index"""
+    rng = s.rng
+    n = rng.choice([2, 3, 4, 4, 5]); w = rng.choice([2, 4, 8, 8, 16, 32, 33])
+    lim = (1 << w) - 1
+    def vals(): return [rng.choice([rng.randrange(0, lim + 1), rng.randrange(0, min(lim, 40) + 1), lim, lim >> 1]) for _ in range(n)]
+    tabs = []
+    for kd in rng.sample(['global-int', 'closure-int', 'closure-bits', 'attr-bits'], rng.randrange(1, 4)):
+      k = s.name_sig('')
+      v = vals()
+      if len(set(v)) == 1: v[-1] = (v[-1] + 1) & lim
+      if kd == 'global-int': nm = f'TG{s.uid}_{k}'; s.pre.append(f'{nm} = {v}')
+      elif kd == 'closure-int': nm = f'TC{k}'; s.head.append(f'{nm} = {v}')
+      elif kd == 'closure-bits': nm = f'KL{k}'; s.head.append(f'{nm} = [ ' + ', '.join(f'Bits{w}( {x} )' for x in v) + ' ]')
+      else: nm = f's.tab{k}'; s.lines.append(f'{nm} = [ ' + ', '.join(f'Bits{w}( {x} )' for x in v) + ' ]')
+      tabs.append(nm); s.feat('table:' + kd)
+    outs = []
+    for _ in tabs:
+      kind = 'OutPort' if (rng.random() < 0.5 and s.depth == 0) else 'Wire'
+      nm = s.name_sig('lb'); s.lines.append(f's.{nm} = [ {kind}( {w} ) for _ in range({n}) ]'); outs.append(nm)
+    lsts = [l for l in s.lists if l[2] == w and l[1] >= n]
+    s.lines.append(f'for i in range({n}):')
+    for nm, tab in zip(outs, tabs):
+      a = s.nonconst(w, 1)
+      if lsts and rng.random() < 0.4: a = f'{rng.choice(lsts)[0]}[i]'; s.feat('lambda:signal-list[i]')
+      e = f'({a} {rng.choice(["+", "^", "-", "|", "&"])} {tab}[i])'
+      if rng.random() < 0.3 and n - 1 <= lim: e = f'({e} {rng.choice(["+", "^"])} i)'; s.feat('lambda:loopvar-int')
+      s.lines.append(f'  s.{nm}[i] //= lambda: {e}')
+    s.feat('lambda-bank')
+    if rng.random() < 0.4:
+      # a second loop over the same tables with another index mapping (same text TAB[i], other values per target)
+      nm2 = s.name_sig('lb'); s.lines.append(f's.{nm2} = [ Wire( {w} ) for _ in range({n}) ]')
+      s.lines += [f'for i in range({n}):', f'  s.{nm2}[{n - 1} - i] //= lambda: ({s.nonconst(w, 1)} {rng.choice(["+", "^"])} {rng.choice(tabs)}[i])']
+      outs.append(nm2); s.feat('lambda-bank:second-loop')
+    for nm in outs:
+      for i in range(n): s.avail.append(Sig(f's.{nm}[{i}]', w))
+      if n & (n - 1) == 0: s.lists.append((f's.{nm}', n, w))
+
+  def const_inst(s, ft):
+    """python text of a constant of field type ft"""
+    rng = s.rng
+    if ft[0] == 'bits':
+      v = rng.randrange(0, 1 << min(ft[1], 16))
+      return str(v) if rng.random() < 0.5 else f'Bits{ft[1]}( {v} )'
+    if ft[0] == 'struct': return f'{ft[1].name}( ' + ', '.join(s.const_inst(f) for _, f in ft[1].fields) + ' )'
+    return '[ ' + ', '.join(s.const_inst(ft[2]) if ft[2][0] != 'bits' else f'Bits{ft[2][1]}( {rng.randrange(0, 1 << min(ft[2][1], 16))} )' for _ in range(ft[1])) + ' ]'
+
+  def add_const_struct_connect(s):
+    """structural connection whose writer is a CONSTANT bitstruct (nested struct / packed array of struct / packed array
+    of BitsN fields), followed by further structural connections in the same component"""
+    rng = s.rng
+    if not s.structs or rng.random() < 0.6:
+      if not s.structs: s.mk_struct()
+      T = s.mk_struct(force=rng.choice(['struct', 'list-of-bits', 'list-of-struct', 'list-of-struct']))
+    else: T = rng.choice(s.structs)
+    flat = all(ft[0] == 'bits' for _, ft in T.fields)
+    kind = 'OutPort' if (rng.random() < 0.5 and s.depth == 0 and (flat or not s.ys_safe)) else 'Wire'
+    t = s.decl_struct(kind, T)
+    s.lines.append(f'{t} //= {s.const_inst(("struct", T))}')
+    s.feat('connect-const-struct')
+    if any(ft[0] == 'list' and ft[2][0] == 'struct' for _, ft in T.fields): s.feat('connect-const-struct:array-of-struct')
+    s.add_struct_avail(t, T, leaves_ok=not (s.ys_safe and kind == 'Wire'))
+    for _ in range(rng.randrange(1, 3)): s.add_connect_unit()
 
   # ------------------------------------------------------------------ source
   def class_source(s):
@@ -1086,5 +1170,7 @@ class {cls}( Component ):
     ('D_loop_wrap',   mk('D_loop_wrap', 's.in_ = InPort( 4 ); s.o = [ OutPort( 4 ) for _ in range(8) ]', 'for i in range( 8 ):\n        s.o[i] @= 0\n      for i in range( 4, 0, -3 ):\n        s.o[i] @= s.in_'), 'for-negative-step-below-zero'),
     ('D_nested_ifc',  mk('D_nested_ifc', 's.bank = [ DOuter() for _ in range(2) ]', 'for i in range(2):\n        for j in range(3):\n          s.bank[i].lane[j].rsp @= s.bank[i].lane[j].msg + 1').replace('from pymtl3 import *', DPT), 'nested-interface-array'),
     ('D_array_2d',    mk('D_array_2d', 's.m = [ [ InPort( 8 ) for _ in range(3) ] for _ in range(2) ]; s.o = [ [ OutPort( 8 ) for _ in range(3) ] for _ in range(2) ]', 'for i in range(2):\n        for j in range(3):\n          s.o[i][j] @= s.m[1 - i][j] + Bits8( j )'), 'control'),
+    ('D_sext_varslice', mk('D_sext_varslice', 's.x = InPort( 16 ); s.e = InPort( 4 ); s.o = OutPort( 8 )', 's.o @= sext( s.x[ s.e : s.e + 4 ], 8 )'), 'sext-of-variable-part-select', [(r's\.e$', 12)]),
+    ('D_zext_varslice', mk('D_zext_varslice', 's.x = InPort( 16 ); s.e = InPort( 4 ); s.o = OutPort( 8 )', 's.o @= zext( s.x[ s.e : s.e + 4 ], 8 )'), 'control', [(r's\.e$', 12)]),
     ('D_red_sig',     mk('D_red_sig',     io + 's.o = OutPort( 1 )', 's.o @= reduce_xor( s.w ) & reduce_or( s.a ) | reduce_and( s.b )'), 'control'),
   ]
